@@ -861,6 +861,17 @@ func (c *Conn) ReadBatchWith(cfg ReadBatchConfig) *Batch {
 		err = checkTimeoutErr(adjustedDeadline)
 	}
 
+	var kafkaError Error
+	if errors.As(err, &kafkaError) {
+		// The broker answered with an error code: the rest of the response
+		// (message set size, other fields) has not been read. Skip it so the
+		// connection is positioned on the next response, it remains usable
+		// after errors reported by the broker.
+		if _, discardErr := discardN(&c.rbuf, remain, remain); discardErr != nil {
+			err = discardErr
+		}
+	}
+
 	var msgs *messageSetReader
 	if err == nil {
 		if highWaterMark == offset {
@@ -1224,7 +1235,7 @@ func (c *Conn) writeCompressedMessages(codec CompressionCodec, msgs ...Message) 
 			}
 		},
 		func(deadline time.Time, size int) error {
-			return expectZeroSize(readArrayWith(&c.rbuf, size, func(r *bufio.Reader, size int) (int, error) {
+			return expectZeroSize(c.discardOnKafkaError(readArrayWith(&c.rbuf, size, func(r *bufio.Reader, size int) (int, error) {
 				// Skip the topic, we've produced the message to only one topic,
 				// no need to waste resources loading it in memory.
 				size, err := discardString(r, size)
@@ -1270,7 +1281,7 @@ func (c *Conn) writeCompressedMessages(codec CompressionCodec, msgs ...Message) 
 				// The response is trailed by the throttle time, also skipping
 				// since it's not interesting here.
 				return discardInt32(r, size)
-			}))
+			})))
 		},
 	)
 
@@ -1310,6 +1321,20 @@ func (c *Conn) readResponse(size int, res interface{}) error {
 		}
 	}
 	return expectZeroSize(size, err)
+}
+
+// discardOnKafkaError skips the unread remainder of a response when reading it
+// stopped on an error code reported by the broker, so that the connection is
+// positioned on the next response and stays usable.
+func (c *Conn) discardOnKafkaError(size int, err error) (int, error) {
+	var kafkaError Error
+	if errors.As(err, &kafkaError) {
+		var discardErr error
+		if size, discardErr = discardN(&c.rbuf, size, size); discardErr != nil {
+			err = discardErr
+		}
+	}
+	return size, err
 }
 
 func (c *Conn) peekResponseSizeAndID() (int32, int32, error) {
